@@ -575,7 +575,7 @@ func (f *Frame) applyContract(c *Contract, callee *ssa.Function, cc *ssa.CallCom
 			e.havocLoc(st, ml)
 		}
 	}
-	if c.SkipFrame != "" && len(c.Modifies) == 0 && !c.Pure {
+	if c.SkipFrame != "" && !c.HasModifies && !c.Pure {
 		// a callee whose frame is not verified and that names no modifies set: its callers must not rely on "nothing
 		// changed" - the objects its pointer arguments (receiver included) point to become arbitrary, constrained only
 		// by the callee's postconditions
